@@ -347,6 +347,7 @@ class CSSMediaRule(cssrule.CSSRuleRules):
             or isinstance(rule, cssutils.css.CSSFontFaceRule)
             or isinstance(rule, cssutils.css.CSSImportRule)
             or isinstance(rule, cssutils.css.CSSNamespaceRule)
+            or isinstance(rule, cssutils.css.CSSVariablesRule)
             or isinstance(rule, cssutils.css.MarginRule)
         ):
             self._log.error(
